@@ -1,5 +1,6 @@
 // C11 -- a Bundle is the direct product of its element groups.
 #include "vf_manif.h"
+#include <cstdlib>
 #include <cstring>
 #include <utility>
 
@@ -30,6 +31,9 @@ template <class F, int... I> static void for_each_impl(F&& f, std::integer_seque
   (f(std::integral_constant<int, I>{}), ...);
 }
 template <class F> static void for_each_elem(F&& f) { for_each_impl(f, std::make_integer_sequence<int, NB>{}); }
+template <class F, int... I> static void for_each_impl_rev(F&& f, std::integer_sequence<int, I...>) {
+  (f(std::integral_constant<int, NB - 1 - I>{}), ...);
+}
 
 static double rel1(double a, double b) {
   if (a == b) return 0;
@@ -144,6 +148,32 @@ vf::Outcome run_case(const vf::Case& c, const vf::RunCtx& ctx) {
       }
     }
 
+    // outputs bound to a block of a larger (column-major, hence strided) matrix: the block receives exactly the
+    // contiguous result and nothing outside it is touched
+    {
+      using Big = Eigen::Matrix<Scalar, GroupT::DoF + 3, GroupT::DoF + 2>;
+      const Scalar pat = Scalar(-77.25);
+      auto blockcheck = [&](const char* name, const Jac& want, auto call) {
+        Big big; big.setConstant(pat);
+        call(big.template block<GroupT::DoF, GroupT::DoF>(2, 1));
+        bool inside = true, outside = true;
+        for (int r = 0; r < big.rows(); ++r) for (int c2 = 0; c2 < big.cols(); ++c2) {
+          const bool in = r >= 2 && r < 2 + Dof && c2 >= 1 && c2 < 1 + Dof;
+          if (in) { const Scalar a = big(r, c2), b = want(r - 2, c2 - 1); if (std::memcmp(&a, &b, sizeof(Scalar)) != 0) inside = false; }
+          else if (!(big(r, c2) == pat)) outside = false;
+        }
+        k.require(std::string("block-bound:") + name, inside, std::string(name) + ": Jacobian written into a block of a larger matrix differs from the contiguous one");
+        k.require(std::string("block-bound(outside):") + name, outside, std::string(name) + ": wrote outside the block the output was bound to");
+      };
+      blockcheck("inverse", Jinv, [&](Eigen::Ref<Jac> J) { X.inverse(J); });
+      blockcheck("log", Jlog, [&](Eigen::Ref<Jac> J) { X.log(J); });
+      blockcheck("exp", Jexp, [&](Eigen::Ref<Jac> J) { T.exp(J); });
+      blockcheck("compose/a", Jca, [&](Eigen::Ref<Jac> J) { X.compose(Y, J, typename GroupT::OptJacobianRef{}); });
+      blockcheck("compose/b", Jcb, [&](Eigen::Ref<Jac> J) { X.compose(Y, typename GroupT::OptJacobianRef{}, J); });
+      blockcheck("rminus/a", Jrma, [&](Eigen::Ref<Jac> J) { X.rminus(Y, J, typename GroupT::OptJacobianRef{}); });
+      blockcheck("rplus/t", Jrpt, [&](Eigen::Ref<Jac> J) { X.rplus(T, typename GroupT::OptJacobianRef{}, J); });
+    }
+
     // block-diagonal structure with exact zeros elsewhere
     const std::pair<const char*, const Jac*> jacs[] = {
         {"inverse", &Jinv}, {"log", &Jlog}, {"exp", &Jexp}, {"compose/a", &Jca}, {"compose/b", &Jcb}, {"between/a", &Jba}, {"between/b", &Jbb},
@@ -230,6 +260,27 @@ vf::Outcome run_case(const vf::Case& c, const vf::RunCtx& ctx) {
       double sc = 0;
       for (int i = 0; i < Dof; ++i) sc += 2 * std::fabs((double)T.coeffs()(i) * (double)U.coeffs()(i));
       k.bound("inner=sum", std::fabs((double)ip - (double)ip_sum) / std::max(sc, 1e-300), 64 * kU, "inner product of the bundle is not the sum of the elements' inner products");
+    }
+    // Random() is the elements' Random() placed at their offsets: with the same std::rand() state the bundle draw must
+    // reproduce the element draws (the evaluation order of the pack expansion is unspecified: first-to-last or last-to-first)
+    {
+      const unsigned sd = (unsigned)(c.ints[0] * 7919 + 13);
+      std::srand(sd);
+      const GroupT Rb = GroupT::Random();
+      bool match = false;
+      for (int order = 0; order < 2 && !match; ++order) {
+        std::srand(sd);
+        typename GroupT::DataType d;
+        auto draw = [&](auto Ic) {
+          constexpr int I = decltype(Ic)::value;
+          using E = typename GroupT::template Element<I>;
+          d.template segment<E::RepSize>(s.rep_off(I)) = E::Random().coeffs();
+        };
+        if (order == 0) for_each_elem(draw);
+        else for_each_impl_rev(draw, std::make_integer_sequence<int, NB>{});
+        match = std::memcmp(d.data(), Rb.data(), sizeof(Scalar) * Rep) == 0;
+      }
+      k.require("Random=elementwise", match, "Bundle::Random() is not the elements' Random() for the same random-number state");
     }
     // Random(): every element valid
     {
